@@ -153,7 +153,9 @@ func cgenesis(minStake uint64) *fsm.GenesisState {
 	return env.NewGenesis(acc, vals, func(p *fsm.Params) {
 		p.Consensus.ProtocolVersion = fsm.NewProtocolVersion(0, 2)
 		v := p.Validator
-		v.UnstakingBlocks, v.DelegateUnstakingBlocks = unstakingBlocks, unstakingBlocks
+		// the delegate lock-up is an independent governance parameter and deliberately longer: committee members are
+		// accountable for the validator period only (a window derived from the delegate period accepts expired evidence)
+		v.UnstakingBlocks, v.DelegateUnstakingBlocks = unstakingBlocks, unstakingBlocks+4
 		v.DoubleSignSlashPercentage, v.MaxSlashPerCommittee = dsPercent, capPercent
 		v.NonSignWindow, v.MaxNonSign = 100, 90
 		// with a minimum stake just below the genesis stakes the first slash of a validator also starts
